@@ -591,6 +591,13 @@ func (e *Engine) lookupMethod(t types.Type, m *types.Func) *ssa.Function {
 // invoke calls fv with args.  call==nil && discard: deferred call.
 func (e *Engine) invoke(st *State, call ssa.CallInstruction, fv FuncV, args []Value, discard bool) ([]*State, bool) {
 	fn := fv.Fn
+	if e.RedirectMatch != nil {
+		if tgt := e.RedirectMatch(fn.String()); tgt != "" {
+			if r := e.RedirectPkg.Func(tgt); r != nil {
+				e.Redirects[fn.String()] = r
+			}
+		}
+	}
 	for _, k := range fnKeys(fn) {
 		if r, ok := e.Redirects[k]; ok {
 			e.StubsUsed["redirect:"+k]++
